@@ -36,6 +36,7 @@ VOCAB = [
     ("_io", "BytesIO", "benign_std"), ("numpy.testing._private.utils.x", "runstring", "nonstd"),
     ("commands", "getoutput", "nonstd"), ("UserDict", "UserDict", "nonstd"), ("cPickle", "loads", "nonstd"),
     ("urllib2", "urlopen", "nonstd"), ("Queue", "Queue", "nonstd"), ("__builtin__", "getattr", "builtins"),
+    ("io", "open", "benign_std"), ("_io", "open", "benign_std"),      # the standard library's alias of builtins.open
 ]
 SECOND = [("collections", "OrderedDict"), ("verif_sink", "other"), ("builtins", "getattr"), ("os", "getpid"),
           ("collections", "deque"), ("datetime", "date")]
@@ -198,6 +199,8 @@ PLANS = {
                         dict(profile="memoslots", maxlen=7, maxdepth=4, require=("MEMOIZE", "PUT", "GET")),
                         dict(profile="shadow", maxlen=6, maxdepth=5, shadow=True),
                         dict(profile="emptybatch", maxlen=7, maxdepth=5, emptybatch=True),
+                        dict(profile="kwargs", maxlen=8, maxdepth=5, require=("NEWOBJ_EX", "SETITEM")),
+                        dict(profile="kwdup", maxlen=10, maxdepth=7, require=("NEWOBJ_EX", "DICT")),
                         dict(profile="mixed", maxlen=14, simulate=120, depth=14, minstop=7, maxdepth=6)],
                   per_shape=1, natural=400),
     "thorough": dict(plan=[dict(profile="calls", maxlen=6), dict(profile="data", maxlen=6),
@@ -206,6 +209,8 @@ PLANS = {
                            dict(profile="memoslots", maxlen=8, maxdepth=4, require=("MEMOIZE", "PUT", "GET")),
                            dict(profile="shadow", maxlen=7, maxdepth=5, shadow=True),
                            dict(profile="emptybatch", maxlen=8, maxdepth=5, emptybatch=True),
+                           dict(profile="kwargs", maxlen=9, maxdepth=6, require=("NEWOBJ_EX", "SETITEM")),
+                           dict(profile="kwdup", maxlen=11, maxdepth=7, require=("NEWOBJ_EX", "DICT")),
                            dict(profile="mixed", maxlen=30, simulate=6000, depth=30, minstop=10, maxdepth=8)],
                      per_shape=2, natural=6000),
 }
